@@ -6,7 +6,7 @@ from pathlib import Path
 
 from .. import models, pdugen, prep, vclock, wire
 from ..rec import MemFilestore
-from ..world import PROTO_EXC, World
+from ..world import CKS, PROTO_EXC, World
 
 PROP = "C07"
 LEVEL = "exploration"
@@ -355,9 +355,25 @@ def run_case(case):
                 w.write_raw("src", w.src_path, data2)
                 want2 = dict(want_hdr, seq=(want_hdr["seq"] + 1) % (1 << c["seqw"]))
                 md2 = dict(md_want, size=len(data2))
-                cks2 = models.checksum(c["cks"], data2).hex()
-                nseg2 = -(-len(data2) // max(1, case["eff"]))
-                v2, o2 = run_stream(w, case, lambda o, n: data2[o : o + n], len(data2), case["eff"], cks2, want2, md2, case["peer_lag"], nseg2 + 14 + case["peer_lag"] * 2,
+                eff2, cks_kind = case["eff"], c["cks"]
+                if case["cfg"]["size"] % 2:
+                    # the user re-tunes the remote entity configuration between the two transfers: CRC flag, checksum type, packet length
+                    rc_obj = w.rc_dst_at_src
+                    crc2, maxpkt2 = (not c["crc"]), c["maxpkt"] + 7
+                    cks_kind = {"null": "crc32", "crc32": "modular", "modular": "crc32c", "crc32c": "null"}[c["cks"]]
+                    rc_obj.crc_on_transmission = crc2
+                    rc_obj.crc_type = CKS[cks_kind]
+                    rc_obj.max_packet_len = maxpkt2
+                    w.cfg["maxpkt"] = maxpkt2
+                    w.cfg["crc"] = crc2
+                    derived2 = models.max_fd_payload(maxpkt2, idw, c["seqw"] // 8, crc2)
+                    eff2 = derived2 if c["seg"] is None else min(c["seg"], derived2)
+                    want2["crc"] = crc2
+                    md2["cktype"] = {"null": "NULL_CHECKSUM", "modular": "MODULAR", "crc32": "CRC_32", "crc32c": "CRC_32C"}[cks_kind]
+                    obs["second_stream_after_mib_change"] = 1
+                cks2 = models.checksum(cks_kind, data2).hex()
+                nseg2 = -(-len(data2) // max(1, eff2))
+                v2, o2 = run_stream(w, case, lambda o, n: data2[o : o + n], len(data2), eff2, cks2, want2, md2, case["peer_lag"], nseg2 + 14 + case["peer_lag"] * 2,
                                     eof_resends=case.get("eof_resends", 0))
                 for x in v2:
                     x["second_put_on_same_sender"] = True
@@ -403,4 +419,4 @@ def run_case(case):
 
 
 REQUIRED = {"metadata_checked": 100, "eof_checked": 100, "empty_file_eof_checked": 5, "ack_finished_checked": 20, "full_segments": 200,
-            "fd_pdu_exactly_max_packet_len": 20, "large_file_cases": 4, "mixed_id_width": 20, "request_contradicts_mib": 20, "eof_resends_checked": 100, "second_streams_on_same_sender": 100}
+            "fd_pdu_exactly_max_packet_len": 20, "large_file_cases": 4, "mixed_id_width": 20, "request_contradicts_mib": 20, "eof_resends_checked": 100, "second_streams_on_same_sender": 100, "second_stream_after_mib_change": 30}
